@@ -1251,6 +1251,23 @@ func runRounds(c *kit.Ctx, r *kit.Rand, nOps int) {
 				w.refresh(id)
 				s.nodes[id].Marked = false
 			}
+			// replacement NodeClaims of the lost commands never launch here: the lifecycle controller
+			// would time them out; remove them so that the cluster state can sync again
+			known := map[string]bool{}
+			for _, nc := range w.claims {
+				known[nc.Name] = true
+			}
+			ncs := &v1.NodeClaimList{}
+			if err := w.c.List(w.ctx, ncs); err != nil {
+				panic(err)
+			}
+			for i := range ncs.Items {
+				if nc := &ncs.Items[i]; !known[nc.Name] {
+					nc.Finalizers = nil
+					_ = w.c.Update(w.ctx, nc)
+					_ = w.c.Delete(w.ctx, nc)
+				}
+			}
 			pods := &corev1.PodList{}
 			if err := w.c.List(w.ctx, pods); err != nil {
 				panic(err)
